@@ -21,6 +21,7 @@ def run(ctx):
         pre, prog = vm_util.load_replay(ctx)
         ctx.absorb(vm_util.replay(ctx, vh, "C22", pre, [prog], "replay"))
         return
+    vm_util.run_pinned(ctx, vh, "C22")
     runs = []
     sub = {"MC_RetQuick": "MC_RetAll"} if ctx.thorough else None
     pre, progs, r = vm_util.generate(ctx, "MC_PolicyLang.cfg", lemma=True, subst=sub)
@@ -30,7 +31,7 @@ def run(ctx):
     _, progs2, _ = vm_util.generate(ctx, "MC_PolicyLang_stmt.cfg", subst=sub)
     vm_util.require_ops(ctx, progs2, vm_util.STMT_OPS, "stmt")
     runs.append(("stmt", progs2))
-    _, progs3, _ = vm_util.generate(ctx, "MC_PolicyLang_sim.cfg", simulate=4000 if ctx.thorough else 300, depth=400)
+    _, progs3, _ = vm_util.generate(ctx, "MC_PolicyLang_sim.cfg", simulate=4000 if ctx.thorough else 150, depth=400)
     runs.append(("sim", progs3))
     total = 0
     allres = []
@@ -45,7 +46,8 @@ def run(ctx):
         "programs": t["ran"],
         "programs_generated": total,
         "disagreements_checked": t["envs"],
-        "exhaustive": "expression depth 1 and statement depth 1; deeper by seeded simulation",
+        "exhaustive": False,
+        "exhaustive_part": "expression depth 1 and statement depth 1 are exhaustive; deeper derivations by seeded simulation",
         "by_run": {tag: len(ps) for tag, ps in runs},
         "tally": t,
         "selftest": vm_util.selftest(ctx, vh, "C22", pre, progs),
